@@ -59,14 +59,23 @@ func (fakeStream) WriteMessage(m interface{}) error          { return nil }
 func (fakeStream) ReadMessage(b []byte, m interface{}) error { return rpc.ErrStreamShutdown }
 func (fakeStream) Close() error                              { return nil }
 
-func (f *fakeRT) enter(addr, form string) error {
+func (f *fakeRT) enter(addr, form string) error { return f.enterCtx(nil, addr, form) }
+
+// enterCtx: like a Transport, the scripted RoundTripper gives a call up when its context ends
+func (f *fakeRT) enterCtx(ctx context.Context, addr, form string) error {
 	k := 0
 	if v, ok := f.r.gidK.Load(goid()); ok {
 		k = v.(int)
 	}
 	f.r.add(&Ev{Ev: "rt.call", C: k, A: f.r.addrIdx(addr), K: form, Seq: -1, Sent: -1})
 	if k != 0 && f.callGate != nil {
-		f.callGate.wait(key(k))
+		if ctx != nil {
+			if _, ok := f.callGate.waitOr(key(k), ctx.Done()); !ok {
+				return ctx.Err()
+			}
+		} else {
+			f.callGate.wait(key(k))
+		}
 	}
 	f.mu.Lock()
 	ok := addr != "" && f.health[addr]
@@ -104,7 +113,7 @@ func (f *fakeRT) Call(addr, serviceMethod string, args interface{}, reply interf
 	return f.enter(addr, "call")
 }
 func (f *fakeRT) CallWithContext(ctx context.Context, addr string, serviceMethod string, args interface{}, reply interface{}) error {
-	return f.enter(addr, "ctx")
+	return f.enterCtx(ctx, addr, "ctx")
 }
 func (f *fakeRT) NewStream(addr, key string) (rpc.Stream, error) {
 	if err := f.enter(addr, "stream"); err != nil {
@@ -147,6 +156,7 @@ type ccaller struct {
 	err     error
 	n       int
 	arr0    int // arrivals of this caller at the RoundTripper gate before its current call
+	cancel  context.CancelFunc
 }
 
 type CliRun struct {
@@ -374,6 +384,8 @@ func errKind(err error) int {
 		return 2
 	case rpc.ErrDial:
 		return 3
+	case context.Canceled, context.DeadlineExceeded:
+		return 5
 	}
 	return 4
 }
@@ -418,6 +430,8 @@ func (r *CliRun) startCallNoWait(k int, timeoutSoon bool) int {
 		return e.C == k && (e.Ev == "k.sched" || e.Ev == "k.wait" || e.Ev == "k.route.closed" || e.Ev == "k.route.director" || e.Ev == "k.wait.closed")
 	})
 	r.add(&Ev{Ev: "api.call", C: k, K: form, Seq: -1, Sent: -1})
+	cctx, ccancel := context.WithCancel(context.Background())
+	c.cancel = ccancel
 	ready := make(chan struct{})
 	go func() {
 		g := goid()
@@ -426,7 +440,7 @@ func (r *CliRun) startCallNoWait(k int, timeoutSoon bool) int {
 		var err error
 		switch form {
 		case "ctx":
-			err = r.c.CallWithContext(context.Background(), "S.M", nil, nil)
+			err = r.c.CallWithContext(cctx, "S.M", nil, nil)
 		case "go":
 			call := r.c.Go("S.M", nil, nil, make(chan *rpc.Call, 1))
 			<-call.Done
@@ -451,6 +465,7 @@ func (r *CliRun) startCallNoWait(k int, timeoutSoon bool) int {
 		r.gidK.Delete(g)
 		c.err = err
 		r.add(&Ev{Ev: "api.ret", C: k, A: errKind(err), K: form, Seq: -1, Sent: -1})
+		ccancel()
 		close(c.done)
 	}()
 	<-ready
@@ -576,6 +591,25 @@ func (r *CliRun) exec(st CStep, next []CStep) {
 			r.rt.callGate.release(key(st.K), 0)
 		}
 		r.await("CallDone", r.waitMs, func() bool { return r.finished(st.K) })
+	case "CtxEnd":
+		// the caller's context ends while its call is with the RoundTripper: the call must return at once
+		c := r.callers[st.K]
+		if c == nil || c.cancel == nil {
+			r.note("diverged: no call of %d to cancel", st.K)
+			break
+		}
+		r.await("call at the RoundTripper", 300, func() bool { return r.finished(st.K) || r.rt.callGate.arrivedCount(key(st.K)) > c.arr0 })
+		if r.finished(st.K) || r.rt.callGate.arrivedCount(key(st.K)) <= c.arr0 {
+			r.note("diverged: call of %d is not with the RoundTripper", st.K)
+			break
+		}
+		r.add(&Ev{Ev: "env.cancel", C: st.K, Seq: -1, Sent: -1})
+		c.cancel()
+		if !r.await("return of the cancelled call", 1000, func() bool { return r.finished(st.K) }) {
+			r.add(&Ev{Ev: "obs.cancelstuck", C: st.K, Seq: -1, Sent: -1})
+			r.rt.callGate.release(key(st.K), 0)
+			r.await("CallDone", r.waitMs, func() bool { return r.finished(st.K) })
+		}
 	case "Again":
 	case "FallbackBegin":
 		r.c.Fallback(45 * time.Millisecond)
@@ -656,7 +690,12 @@ func (r *CliRun) traceFolded() []*Ev {
 			} else {
 				out = append(out, e)
 			}
-		case "k.probe", "k.ewma.in", "k.waiter.ret", "rt.probe":
+		case "k.probe":
+			// started by the detector pass, under its lock: the set of probed addresses goes into the pass event
+			if d := lastDetect[e.gid]; d != nil && e.A > 0 {
+				d.M |= 1 << uint(e.A-1)
+			}
+		case "k.ewma.in", "k.waiter.ret", "rt.probe":
 		default:
 			out = append(out, e)
 		}
